@@ -366,7 +366,7 @@ theorem bound_empty : Bound {} := by
 
 variable (valid : String → Bool)
 
-theorem saveRef_ok (s : Store) (kid : String) (r : KeyRef) (s1 : Store) (h : saveRef s kid r = .ok s1) :
+theorem saveRef_ok (c : Bool) (s : Store) (kid : String) (r : KeyRef) (s1 : Store) (h : saveRef c s kid r = .ok s1) :
     s1 = { s with refs := alPut s.refs kid r } := by
   unfold saveRef at h
   split at h
@@ -375,11 +375,11 @@ theorem saveRef_ok (s : Store) (kid : String) (r : KeyRef) (s1 : Store) (h : sav
 
 theorem bound_link (s : Store) (kid n v : String) (h : Bound s) : Bound (link s kid n v).1 := by
   unfold link
-  cases hs : saveRef s kid { keyName := n, version := v } with
+  cases hs : saveRef false s kid { keyName := n, version := v } with
   | error e => exact h
   | ok s1 =>
     simp only
-    have := saveRef_ok s kid _ s1 hs
+    have := saveRef_ok false s kid _ s1 hs
     subst this
     intro kid' k hp
     unfold Store.pubd at hp
@@ -395,9 +395,9 @@ theorem bound_link (s : Store) (kid n v : String) (h : Bound s) : Bound (link s 
 
 theorem link_backend (s : Store) (kid n v : String) : (link s kid n v).1.backend = s.backend := by
   unfold link
-  cases hs : saveRef s kid { keyName := n, version := v } with
+  cases hs : saveRef false s kid { keyName := n, version := v } with
   | error e => rfl
-  | ok s1 => simp only; rw [saveRef_ok s kid _ s1 hs]
+  | ok s1 => simp only; rw [saveRef_ok false s kid _ s1 hs]
 
 theorem bound_migrateOne (s : Store) (name : String) (h : Bound s) : Bound (migrateOne s name) := by
   unfold migrateOne
@@ -490,12 +490,12 @@ theorem bound_new (s : Store) (name : String) (naming : Option String) (hf : Fre
   | none => exact h1
   | some kid =>
     simp only
-    cases hs : saveRef { s with nextKey := s.nextKey + 1, backend := alPut s.backend name s.nextKey } kid
+    cases hs : saveRef true { s with nextKey := s.nextKey + 1, backend := alPut s.backend name s.nextKey } kid
         { keyName := name, version := "1" } with
     | error e => exact h1
     | ok s2 =>
       simp only
-      have := saveRef_ok _ kid _ s2 hs
+      have := saveRef_ok true _ kid _ s2 hs
       subst this
       intro kid' k hp
       unfold Store.pubd at hp
@@ -630,9 +630,9 @@ variable (valid : String → Bool)
 theorem same_resolve {s t : Store} (h : SameButKeys s t) (kid : String) :
     resErr (resolve valid s kid) = resErr (resolve valid t kid) := same_getPrivateKey valid h kid
 
-theorem same_saveRef {s t : Store} (h : SameButKeys s t) (kid : String) (r : KeyRef) :
-    (∃ e, saveRef s kid r = .error e ∧ saveRef t kid r = .error e) ∨
-    (∃ s' t', saveRef s kid r = .ok s' ∧ saveRef t kid r = .ok t' ∧ SameButKeys s' t') := by
+theorem same_saveRef (c : Bool) {s t : Store} (h : SameButKeys s t) (kid : String) (r : KeyRef) :
+    (∃ e, saveRef c s kid r = .error e ∧ saveRef c t kid r = .error e) ∨
+    (∃ s' t', saveRef c s kid r = .ok s' ∧ saveRef c t kid r = .ok t' ∧ SameButKeys s' t') := by
   unfold saveRef
   rw [same_ref h kid]
   split
@@ -642,7 +642,7 @@ theorem same_saveRef {s t : Store} (h : SameButKeys s t) (kid : String) (r : Key
 theorem same_link {s t : Store} (h : SameButKeys s t) (kid n v : String) :
     SameButKeys (link s kid n v).1 (link t kid n v).1 ∧ resErr (link s kid n v).2 = resErr (link t kid n v).2 := by
   unfold link
-  rcases same_saveRef h kid { keyName := n, version := v } with ⟨e, h1, h2⟩ | ⟨s', t', h1, h2, hR⟩
+  rcases same_saveRef false h kid { keyName := n, version := v } with ⟨e, h1, h2⟩ | ⟨s', t', h1, h2, hR⟩
   · simp [h1, h2, h, resErr]
   · simp only [h1, h2]
     exact ⟨⟨hR.1, hR.2⟩, by first | rfl | trivial⟩
@@ -680,7 +680,7 @@ theorem same_new {s t : Store} (h : SameButKeys s t) (name : String) (naming : O
     | none => exact ⟨hR1, rfl⟩
     | some kid =>
       simp only
-      rcases same_saveRef hR1 kid { keyName := name, version := "1" } with ⟨e, h1, h2⟩ | ⟨s', t', h1, h2, hR⟩
+      rcases same_saveRef true hR1 kid { keyName := name, version := "1" } with ⟨e, h1, h2⟩ | ⟨s', t', h1, h2, hR⟩
       · simp only [h1, h2]; exact ⟨hR1, by first | rfl | trivial⟩
       · simp only [h1, h2]; exact ⟨⟨hR.1, hR.2⟩, by first | rfl | trivial⟩
   · exact ⟨⟨h.1, h.2⟩, rfl⟩
@@ -808,11 +808,11 @@ theorem backend_touched (s : Store) (op : Op) (name : String)
         | none => simp [Store.key, alGet_put, e]
         | some kid =>
           simp only
-          cases hs : saveRef { s with nextKey := s.nextKey + 1, backend := alPut s.backend n s.nextKey } kid
+          cases hs : saveRef true { s with nextKey := s.nextKey + 1, backend := alPut s.backend n s.nextKey } kid
               { keyName := n, version := "1" } with
           | error _ => simp [Store.key, alGet_put, e]
           | ok s2 =>
-            have := saveRef_ok _ kid _ s2 hs
+            have := saveRef_ok true _ kid _ s2 hs
             subst this
             simp [Store.key, alGet_put, e]
   | delete k =>
